@@ -13,7 +13,7 @@
 
    Clause names starting with "machinery" are never verdicts: the driver turns them into
    infrastructure errors (exit 2). *)
-EXTENDS SvgPath, SvgDoc, TraceIO
+EXTENDS SvgPathPrint, SvgDoc, TraceIO
 VARIABLE l
 Init == l = 1
 Next == l <= N /\ l' = l + 1
@@ -31,6 +31,10 @@ PathLineOK(e) ==
        \/ (v = "range" /\ Reject(l, "machinery-range"))
        \/ Reject(l, v)                         \* "grammar" | "geometry"
 
+(* DRIFT (never a verdict): the byte-level design model SvgPathPrint predicts the output for integer path
+   data; a difference is reported as clause "drift" and only counted by the driver. *)
+DriftOK(e) == ~e.ok \/ NoDrift(e.in, e.out) \/ Reject(l, "drift")
+
 DocLineOK(e) ==
   IF ~e.wfin THEN Reject(l, "machinery-input")            \* "all well-formed SVG documents"
   ELSE IF ~e.ok \/ ~e.wfout THEN Reject(l, "wf")          \* does not render at all
@@ -42,6 +46,6 @@ DocLineOK(e) ==
                /\ (AllElements(ta, tb, ValuesKept) \/ Reject(l, "value"))
                /\ (Rendered(sa) = Rendered(sb) \/ Reject(l, "text"))
 
-LineOK(e) == IF e.kind = "path" THEN PathLineOK(e) ELSE DocLineOK(e)
+LineOK(e) == IF e.kind = "path" THEN PathLineOK(e) /\ DriftOK(e) ELSE DocLineOK(e)
 Conforms == l <= N => LineOK(Trace[l])
 =============================================================================
